@@ -16,7 +16,7 @@ RULE = ("(hard rule) Hypothesis-generated clean motif networks as in C11 with sy
 ASSUMPTIONS = ["targets are symmetric (a mixing matrix is symmetric; the acceptance rule reads one orientation)",
                "runs cut by the RNG-draw budget are inconclusive for the approach clause; their created edges are still checked",
                "both clauses are independent of motif ids, so the open C11 finding does not confound them"]
-BUDGET = {"quick": (16, 100), "thorough": (16, 1200)}
+BUDGET = {"quick": (16, 100), "thorough": (16, 3000)}
 SHRINK_IN_QUICK = False
 ENUM_CHUNK = 1
 
